@@ -227,6 +227,14 @@ func runLibrary(code *gojq.Code, v any, o opts) (outs []out) {
 			if err != nil {
 				panic(err)
 			}
+			// "the library's outputs … each rendered in the selected format": in the compact format
+			// the command's own encoder must write the bytes the library's Marshal writes
+			if !tab && indent < 0 {
+				if lib, err := gojq.Marshal(x); err == nil && !bytes.Equal(lib, enc) && renderCtx != nil {
+					renderCtx.Violate("render-differs-from-library:"+common.Hex(string(lib)), fmt.Sprintf("the command's compact rendering %q differs from the library's %q", clipB(enc), clipB(lib)),
+						map[string]any{"value": common.Canon(x), "command": string(enc), "library": string(lib), "cmd": "gojq -c . vs gojq.Marshal / tojson"})
+				}
+			}
 			s, isStr := x.(string)
 			outs = append(outs, out{kind: 'v', falsy: x == nil || x == false, isStr: isStr, str: s, enc: append([]byte(nil), enc...)})
 		}
@@ -337,14 +345,26 @@ func answer(status int, stdout []byte, chunks []string) string {
 	return fmt.Sprintf("%d %s %s", status, h, c)
 }
 
+var renderCtx *common.Ctx
+
+func clipB(b []byte) string {
+	if len(b) > 120 {
+		return string(b[:120]) + "…"
+	}
+	return string(b)
+}
+
 // ---- generators ---------------------------------------------------------------------------
 
-var docPool = []string{"0", "1", "2", "null", "false", "true", `"s"`, `"a\u0000b"`, "[1,2]", `{"a":1}`, "[]", `{"a":{"b":{"c":3}}}`,
+var docPool = []string{`"\u2028\u2029"`, `{"\u2029k":"\u2028v"}`, "0", "1", "2", "null", "false", "true", `"s"`, `"a\u0000b"`, "[1,2]", `{"a":1}`, "[]", `{"a":{"b":{"c":3}}}`,
 	`"line\nbreak"`, "1.0", "100000000000000000000", "-0", "1e2", `""`, `{"b":[],"a":[{"c":null}]}`}
 var badTails = []string{"]", `{"a":`, "[1,", "tru", `"abc`, `{"a" 1}`, "[1 2]", "nul", "{,}", "}", "@"}
 
 var valueAtoms = []string{".", "1", "null", "false", "true", `"a"`, `"a\u0000b"`, `"x\ny"`, "[., 1]", "{a: .}", `"é"`, "[]", "{}", "1.5", "empty",
 	".[]?", `"\u0000"`, `""`, `[1,[2,{"a":"b"}]]`, `{"b":[],"a":{"c":null}}`, "1e1000", "[.[]?]", "100000000000000000000", "nan", "[infinite, -infinite]",
+	// strings that are NOT valid UTF-8 (the library keeps the bytes; raw output writes them as they are)
+	// and characters that other JSON encoders escape although jq does not (U+2028, U+2029, DEL, </>)
+	`("iVBORw0KGgo=" | @base64d)`, `("/w==" | @base64d)`, `("w6k=" | @base64d | .[0:1] + "x")`, `[("/v8=" | @base64d)]`, `{("/w==" | @base64d): 1}`, `"\u2028"`, `"a\u2029b"`, `{"\u2028": ["\u2029"]}`, `["</script>", "\u007f", "\ud83d\ude00"]`,
 	`"tab\there"`, `"\u001f\u007f"`, "(1, 2)", "[range(3)]", `"<&>'"`, "tojson", "not", "null, false", "false, 1", `"NUL\u0000", 2`}
 var failAtoms = []string{`error("x")`, "error", "error(null)", "error({a: 1})", ".a.b.c", "(1 / .)", ".[0]", "tonumber", `error("multi\nline")`, `error("é")`,
 	`error("")`, `halt_error("x")`, "implode", "error([1, null])", `error("a\u0000b")`, ".[\"k\"]", "ltrimstr(1) | error"}
@@ -459,6 +479,7 @@ type runCase struct {
 
 func main() {
 	ctx := common.ParseFlags("C15")
+	renderCtx = ctx
 	gctx = ctx
 	r := ctx.R
 	st := ctx.NewStream("process", "Gojq.Process.process/printValues/marshal/exitCode/runStatus (Model/Cli/Process.lean = cli/cli.go run, process, printValues, createMarshaler; cli/marshaler.go; cli/error.go)",
